@@ -301,6 +301,7 @@ def run_scenario(program, chooser, max_steps=4000, kill_budget=0, killable=None,
     r.kinds = {tid: kind for tid, (kind, f) in env.futs.items()}
     r.max_registered = tuple(env.max_registered)
     r.inv_violations = dict(env.inv_violations)
+    r.oplog = list(S.OPLOG)
     return r
 
 
@@ -362,7 +363,7 @@ class Env:
                                    "mgmt": e._processes_management_lock, "shutdown_lock": e._shutdown_lock,
                                    "procs": e._processes, "flags": e._flags, "hwm": e._max_workers,
                                    "pending": e._pending_work_items, "running": e._running_work_items,
-                                   "work_ids": e._work_ids})
+                                   "work_ids": e._work_ids, "wakeup": e._executor_manager_thread_wakeup})
 
     def executor(self, max_workers=2, timeout=None, **kw):
         e = pe.ProcessPoolExecutor(max_workers, context=self.ctx, timeout=timeout, **kw)
